@@ -83,6 +83,23 @@ class FaultStream:
         return self.pos >= len(self.source)
 
 
+class TypedStream(FaultStream):
+    """
+    FaultStream whose read()/readline() hand the bytes over as another bytes-like type
+    (bytearray: what e.g. a stream built on recv_into / readinto buffers returns).
+    """
+
+    def __init__(self, source: bytes, chooser=None, kind=bytearray, **kw):
+        super().__init__(source, chooser, **kw)
+        self.kind = kind
+
+    def read(self, n: int = -1):
+        return self.kind(super().read(n))
+
+    def readline(self):
+        return self.kind(super().readline())
+
+
 class DribbleRaw(io.RawIOBase):
     """Raw stream returning at most ``step`` bytes per readinto (for BufferedReader)."""
 
